@@ -594,6 +594,67 @@ func (P *Program) registerStd() {
 		}
 		return in.equals(src.t, src.v, want.v)
 	})
+	// ---- net.IP as bytes (possibly symbolic)
+	ipBytes := func(v value) sliceVal { s, _ := v.(sliceVal); return s }
+	v4prefix := func(in *Interp) sliceVal {
+		p := make(sliceVal, 12)
+		for i := range p {
+			p[i] = in.C.BVConstU(0, 8)
+		}
+		p[10], p[11] = in.C.BVConstU(0xff, 8), in.C.BVConstU(0xff, 8)
+		return p
+	}
+	isV4in16 := func(in *Interp, ip sliceVal) *smt.Term {
+		var cs []*smt.Term
+		for i := 0; i < 10; i++ {
+			cs = append(cs, in.C.Eq(tm(ip[i]), in.C.BVConstU(0, 8)))
+		}
+		cs = append(cs, in.C.Eq(tm(ip[10]), in.C.BVConstU(0xff, 8)), in.C.Eq(tm(ip[11]), in.C.BVConstU(0xff, 8)))
+		return in.C.And(cs...)
+	}
+	P.reg("(net.IP).To16", func(fr *frame, args []value) value {
+		ip := ipBytes(args[0])
+		switch len(ip) {
+		case 4:
+			return sliceVal(append(v4prefix(fr.in), ip...))
+		case 16:
+			return ip
+		}
+		return sliceVal(nil)
+	})
+	P.reg("(net.IP).To4", func(fr *frame, args []value) value {
+		ip := ipBytes(args[0])
+		if len(ip) == 4 {
+			return ip
+		}
+		if len(ip) == 16 && fr.in.branch(isV4in16(fr.in, ip)) {
+			return sliceVal(ip[12:16])
+		}
+		return sliceVal(nil)
+	})
+	P.reg("(net.IP).Equal", func(fr *frame, args []value) value {
+		in := fr.in
+		a, b := ipBytes(args[0]), ipBytes(args[1])
+		norm := func(x sliceVal) sliceVal {
+			if len(x) == 4 {
+				return append(v4prefix(in), x...)
+			}
+			return x
+		}
+		if (len(a) != 4 && len(a) != 16) || (len(b) != 4 && len(b) != 16) {
+			return in.boolv(len(a) == len(b) && len(a) == 0)
+		}
+		return in.bstrEq(bstr{norm(a)}, bstr{norm(b)})
+	})
+	P.reg("(net.IP).String", func(fr *frame, args []value) value { return fr.in.freshOpq() })
+	P.reg("net.ParseIP", func(fr *frame, args []value) value {
+		ip := net.ParseIP(fr.in.goStr(args[0], "net.ParseIP"))
+		var out sliceVal
+		for _, b := range ip {
+			out = append(out, fr.in.C.BVConstU(uint64(b), 8))
+		}
+		return out
+	})
 	// ---- net: concrete address text only
 	P.reg("net.SplitHostPort", func(fr *frame, args []value) value {
 		in := fr.in
